@@ -1,3 +1,3 @@
--- Model driver for property C05 (stub until the property's model exists).
-import GojaModel.Base.Proto
-def main : IO Unit := GojaModel.Proto.lineMap (fun _ => "unimplemented")
+-- Model driver for property C05.
+import GojaModel.C05.Driver
+def main : IO Unit := GojaModel.C05.Driver.main
